@@ -513,6 +513,7 @@ func (s *setupRun) m5(key []byte, K []byte, id *identity, signer ed25519.Private
 type verifyRun struct {
 	cc      *ctlConn
 	priv    [32]byte
+	keepPriv *[32]byte
 	pub     []byte
 	accPub  []byte
 	shared  []byte
@@ -532,7 +533,11 @@ func (v *verifyRun) post(items []tlvItem) (map[byte][]byte, int, error) {
 }
 
 func (v *verifyRun) m1(pubOverride []byte, accLTPK []byte) (map[byte][]byte, int, error) {
-	rand.Read(v.priv[:])
+	if v.keepPriv == nil {
+		rand.Read(v.priv[:])
+	} else {
+		v.priv = *v.keepPriv // the controller uses the exchange key pair of an earlier exchange again
+	}
 	p, _ := curve25519.X25519(v.priv[:], curve25519.Basepoint)
 	v.pub = p
 	send := v.pub
